@@ -452,3 +452,25 @@ func ManyDecls(r *rng.R, d *Doc, k int) *Node {
 	}
 	return e
 }
+
+// Deepen hangs a chain of n nested elements under a randomly chosen element;
+// the innermost one gets a text node, an attribute, a comment and a
+// processing instruction. The caller must call Finish. Returns the innermost element.
+func Deepen(r *rng.R, d *Doc, n int) *Node {
+	e := rng.Pick(r, d.Elements())
+	for len(e.Children) > 0 && e.Children[len(e.Children)-1].Kind == Text {
+		// keep text nodes non-adjacent and the chain last
+		break
+	}
+	cur := e
+	for i := 0; i < n; i++ {
+		c := d.AddElem(cur, "", rng.Pick(r, []string{"d", "d", "a", "item"}))
+		c.NoXMLNS = e.NoXMLNS
+		cur = c
+	}
+	d.AddAttr(cur, "", "id", "deep")
+	d.AddText(cur, "7")
+	d.AddComment(cur, "deep")
+	d.AddPI(cur, "pi", "deep")
+	return cur
+}
